@@ -24,6 +24,17 @@ json.dump(a, open('known_findings.json', 'w'), indent=1)
 PY
   git add known_findings.json
 fi
+# tools/py2lean.py: every builder adds its two-line hook at the end of main(): keep both sides
+if git diff --name-only --diff-filter=U | grep -q '^tools/py2lean.py$'; then
+  python3 - <<'PY'
+import ast, re
+p = 'tools/py2lean.py'
+s = re.sub(r'^<<<<<<< .*\n|^=======\n|^>>>>>>> .*\n', '', open(p).read(), flags=re.M)
+ast.parse(s)
+open(p, 'w').write(s)
+PY
+  git add tools/py2lean.py
+fi
 left=$(git diff --name-only --diff-filter=U | grep -v -F -e MANIFEST.json -e lean/Driver.lean -e lean/EdzedModel.lean -e lean/EdzedProofs.lean -e lean/EdzedProps.lean -e Gen/Constants.lean || true)
 if [ -n "$left" ]; then echo "UNRESOLVED: $left"; exit 1; fi
 python3 tools/gen_driver.py >/dev/null
